@@ -15,6 +15,7 @@ import Scale.Derive
 import Scale.Ledger
 import Scale.HookTrace
 import Scale.Wf
+import Scale.Request
 namespace Scale.Driver
 open Scale
 
@@ -403,6 +404,24 @@ def answer (line : String) : String :=
     | some l, some (ty, [h]) =>
       match parseHex h with
       | some bs => showResVal (decodeAllLimit l ty bs)
+      | none => "bad-op"
+    | _, _ => "bad-op"
+  | "reqs" :: kind :: skip :: rest =>
+    -- C09: the heap requests of decoding `bs` (count, sum, largest), over a slice or over a reader
+    -- of unknown length; zero-sized requests never reach an allocator; a failing decode leaves out
+    -- requests of exactly `skip` bytes (the boxed cause of a chained error on the Rust side)
+    match skip.toNat?, parseTy rest with
+    | some skip, some (ty, [h]) =>
+      match parseHex h with
+      | some bs =>
+        let r := if kind = "slice" then requestsFast sliceInput ty bs else requestsFast ioInput ty bs
+        let all := r.2.2.filter (· ≠ 0)
+        let show_ (tag : String) (l : List Nat) :=
+          tag ++ " n=" ++ toString l.length ++ " total=" ++ toString (l.foldl (· + ·) 0) ++ " max=" ++ toString (l.foldl max 0)
+        match r.1 with
+        | .ok _ => show_ "ok" all
+        | .err => show_ "err" (all.filter (· ≠ skip))
+        | .panic => "panic"
       | none => "bad-op"
     | _, _ => "bad-op"
   | "payload" :: rest =>
